@@ -450,3 +450,5 @@ def _truncation(chk, repo, folder):
     # ------------------------------------------------------------------ R14 instances are independent (shared clause)
     from . import shared as _shared
     _shared.isolation(chk, "R14", rels=['canopen/sdo/client.py', 'canopen/sdo/base.py'])
+    # ------------------------------------------------------------------ R1 the multiplexer on the wire is the caller's (shared clause)
+    _shared.sdo_address_unchanged(chk, "R1")
